@@ -256,6 +256,7 @@ def big_texts(tier):
     out.append(('short-rows', ''.join('%d,a\n' % i for i in range(30000)), ',', 'quoted'))
     out.append(('one-char-rows-crlf', ''.join('%s\r\n' % 'abcdefg'[i % 7] for i in range(20000)), ',', 'simple'))
     out.append(('long-fields', ''.join('%d,"%s",%s\n' % (i, 'x' * (1500 + 37 * i) + '""' + 'y' * 900, 'z' * (i * 211 % 3000)) for i in range(12)), ',', 'quoted_rfc'))
+    out.append(('one-line-of-6000-characters', 'a,' + 'x' * 6000 + ',z\nb,c,d\n' + 'y' * 3000, ',', 'quoted'))      # thousands of reads per line at chunk size 1 - 3
     out.append(('record-spanning-2500-lines', 'a,"' + '\r\n'.join('l%d,""q""' % i for i in range(2500)) + '",z\r\nnext,row,here\r\n', ',', 'quoted_rfc'))
     out.append(('wide-records', '::'.join('f%d' % i for i in range(4000)) + '\n' + '::'.join(['"a::b"'] * 4000) + '\n', '::', 'quoted'))
     line = 'abcdefgh,"q,1",xyz\r\n'
@@ -293,6 +294,8 @@ def check_big(name, text, dlm, policy, scratch, stats):
         modes.append(('utf8-mixed-pieces-%s' % '/'.join(map(str, sizes)), lambda sizes=sizes: observe(PiecewiseRaw(cyc(data, sizes)), 'utf-8', dlm, policy, None, False, 1024)))
         modes.append(('text-mixed-pieces-%s' % '/'.join(map(str, sizes)), lambda sizes=sizes: observe(PiecewiseText(cyc(text, sizes)), None, dlm, policy, None, False, 4096)))
     if len(text) <= 20000:
+        modes.append(('text-3', lambda: observe(PiecewiseText([text]), None, dlm, policy, None, False, 3)))
+        modes.append(('utf8-pieces-2-cs-1024', lambda: observe(PiecewiseRaw([data[i:i + 2] for i in range(0, len(data), 2)]), 'utf-8', dlm, policy, None, False, 1024)))
         modes.append(('text-1', lambda: observe(PiecewiseText([text]), None, dlm, policy, None, False, 1)))
     path = os.path.join(scratch, 'c12_big_%d.csv' % os.getpid())
     with open(path, 'wb') as f:
